@@ -903,6 +903,12 @@ fn format_subexpression(
                 format_unary_op(op, output)?;
             } else {
                 format_unary_op(op, output)?;
+                // Keep repeated sign operators apart so they do not join into another token: - -x is not --x
+                if let ast::Expression::UnaryOperation(inner_op, _) = &inner.node {
+                    if unary_ops_join(op, inner_op) {
+                        output.push(' ');
+                    }
+                }
                 format_subexpression(inner, prec, OperatorSide::Right, output, context)?;
             }
         }
@@ -1058,6 +1064,17 @@ fn get_precedence_associativity(prec: u32) -> Associativity {
 
         _ => Associativity::None,
     }
+}
+
+/// Check if a prefix operator directly followed by another prefix operator would read as a different token
+fn unary_ops_join(outer: &ast::UnaryOp, inner: &ast::UnaryOp) -> bool {
+    use ast::UnaryOp::*;
+    matches!(
+        (outer, inner),
+        (Plus, Plus | PrefixIncrement)
+            | (Minus, Minus | PrefixDecrement)
+            | (AddressOf, AddressOf)
+    )
 }
 
 /// Format an unary op
